@@ -42,7 +42,7 @@ def main():
                 "engine": "lean4-model+correspondence",
                 "level_claimed": {"category": "proof", "text": text, "design_ref": "DESIGN.md section 0.3, row %s (as built); section 7 (%s) is the original plan" % (pid, pid)},
                 "level_note": note + " Trusted base: Lean kernel + propext/Classical.choice/Quot.sound; translator; correspondence harness; exact-arithmetic idealisation; OctoPrint, logging, time, uuid4 not modelled.",
-                "technique": "Lean 4 theorems about a hand-written model; model tied to the source by a translator (regexes, constants, tables) and a bit-exact differential correspondence check",
+                "technique": "Lean 4 theorems about a hand-written model; model tied to the source by a translator (regexes, constants and tables, region geometry, axis / arc / retraction / exit-sequence arithmetic compiled from the Python AST and proved equal to the model) and a bit-exact differential correspondence check",
             })
         else:
             na.append({"property_id": pid, "reason": "not claimed yet: the Lean theorems for this property are still being written (the correspondence suites and oracles already exist); see DESIGN.md"})
